@@ -16,7 +16,6 @@
 package c05
 
 import (
-	"sync"
 	"encoding/hex"
 	"encoding/json"
 	"fmt"
@@ -25,6 +24,7 @@ import (
 	"os"
 	"strconv"
 	"strings"
+	"sync"
 	"testing"
 
 	ds "github.com/sealdice/dicescript"
@@ -123,7 +123,7 @@ type acc struct {
 	faces  bool
 	cnt    []int64 // faces: n cells, otherwise 16 quantile cells
 	res    [16]int64
-	pc     int // pair alphabet size
+	pc     int        // pair alphabet size
 	thr16  [17]uint64 // thr16[j] = ceil(j*n/16): quantile cell j is [thr16[j], thr16[j+1])
 	thr4   [5]uint64
 	pairs  [nLags][]int64
@@ -629,6 +629,27 @@ func checkFallback(c FallbackCase, s *rt.Section) *rt.Failure {
 			}
 		}
 		return s.NewFailure("independent-draws", "fallback:fresh-vms-repeat", c, fmt.Sprintf("%d unseeded VMs created back to back rolled only %d different results of 4d1000000007; %d of them rolled %s", nvm, len(firsts), worst, text), "64 different results (four independent draws from a billion faces each)")
+	}
+	// the same hosts logging the generator state of each command before it rolls (GetCurSeed on a context without a seed):
+	// reading the state does not make the contexts repeat each other
+	logged := map[string]int{}
+	for i := 0; i < nvm; i++ {
+		vm := ds.NewVM()
+		var err error
+		if pi := rt.Guard(func() {
+			_, _ = vm.GetCurSeed()
+			err = vm.Run("4d1000000007")
+		}); pi != nil {
+			return s.NewFailure("vm-runs", pi.Sig(), c, "GetCurSeed then Run on a fresh unseeded VM: "+pi.Value, "no panic")
+		}
+		if err != nil {
+			return s.NewFailure("vm-runs", "vm:error", c, "fresh unseeded VM after GetCurSeed: "+err.Error(), "no error")
+		}
+		logged[vm.GetDetailText()]++
+	}
+	if len(logged) < nvm-1 {
+		return s.NewFailure("independent-draws", "fallback:fresh-vms-repeat-after-getcurseed", c,
+			fmt.Sprintf("%d unseeded VMs that each read GetCurSeed before rolling gave only %d different results of 4d1000000007", nvm, len(logged)), "64 different results")
 	}
 	if repeats > 1 {
 		return s.NewFailure("independent-draws", "fallback:repeated-draws", c, fmt.Sprintf("%d of %d concurrent draws from the package-level generator repeat an earlier value", repeats, c.Goroutines*c.Draws), "no repeats among independent 62-bit draws")
